@@ -4,6 +4,9 @@ manifest stays valid while checks are added)."""
 import json, os
 ROOT = os.path.dirname(os.path.abspath(__file__))
 CHECKS = {
+ "C12": dict(level="exploration", technique="per-object lifecycle reference model over Start/StopTransfer events, independently decoded stream and API state samples; removal at every packet index; termination cap per instant",
+     text="A controlled grid (transfer counts 1..5 x five carousel modes x immediate-stop x FEC x publish mode) with the object removed at EVERY packet index of its first two transfers, and thousands of random multi-object scripts, run on the real sender; the model decides exact complete-transfer counts, disappearance after the last transfer, carousel persistence, the three removal outcomes (finish first transfer / at most one close-object packet / nothing), nb_transfers at quiescent points, nb_objects, FDT-only tail and termination of reads at a fixed instant. Held on the scripts run.",
+     note="trusted: Subscriber events as transfer boundaries cross-checked by the decoded stream; liveness verdicts only on the ample-horizon grid", ref="DESIGN.md §5 C12"),
  "C11": dict(level="exploration", technique="online trace automaton over the emitted stream (Announced set fed by independently decoded, completely emitted FDT instances; pending-instance and publish-count rules) on random operation interleavings",
      text="Twelve thousand (quick) random add/publish/remove/read interleavings with objects added at arbitrary packet indices, multi-packet FDTs, double/forgotten publishes, carousel, start times, 1-4 queues, multiplexing, both publish modes and both polling disciplines run on the real sender; every object packet must belong to a TOI listed by an FDT instance already completely on the wire, never interrupt a partly emitted instance, and never overtake an instance that an explicit publish made pending. Held on the scripts run.",
      note="trusted: independent decoder and reassembly; publish() errors skip the script (precondition)", ref="DESIGN.md §5 C11"),
